@@ -129,6 +129,7 @@ def find_in_scope(
     interface: bool = False,
     local_only: bool = False,
     var_line_number: int = None,
+    search_ancestors: bool = True,
 ):
     from .include import Include
 
@@ -228,11 +229,16 @@ def find_in_scope(
         tmp_var = find_in_scope(scope.parent, var_name, obj_tree)
         if tmp_var is not None:
             return tmp_var
-    # Check ancestor scopes
-    for ancestor in scope.get_ancestors():
-        tmp_var = find_in_scope(ancestor, var_name, obj_tree)
-        if tmp_var is not None:
-            return tmp_var
+    # Check ancestor scopes. get_ancestors() returns the whole ancestry, so the
+    # ancestors are not asked for theirs again (which never ends when submodules
+    # name each other as parent)
+    if search_ancestors:
+        for ancestor in scope.get_ancestors():
+            tmp_var = find_in_scope(
+                ancestor, var_name, obj_tree, search_ancestors=False
+            )
+            if tmp_var is not None:
+                return tmp_var
     return None
 
 
